@@ -15,7 +15,7 @@ Definition table : list (Z * (val -> val)) :=
     (900, run_sorted_set); (901, run_sorted_map);
     (1100, run_linefile); (1200, run_mutfile);
     (1300, run_csv_seq); (1301, run_json_assumed);
-    (2000, run_tmppool); (2001, run_filepool);
+    (2000, run_tmppool); (2001, run_filepool); (2002, run_two_tmppools);
     (100, run_pool); (500, run_fmap); (1400, run_storage); (1800, run_forkread) ].
 
 Fixpoint lookup (t : list (Z * (val -> val))) (code : Z) : option (val -> val) :=
